@@ -77,7 +77,10 @@ structure Branch where
   lockKeys : List Key
   deriving Repr, DecidableEq
 
-/-- phase one of a whole local transaction; any failing statement aborts it (nothing committed) -/
+def Item.nonEmpty (it : Item) : Bool := !(it.before.isEmpty && it.after.isEmpty)
+
+/-- phase one of a whole local transaction; any failing statement aborts it (nothing committed).
+    A statement that touched no row leaves no undo item (FlushUndoLog skips it). -/
 def localPhase1 (sc : Schema) (cfg : Cfg) : Table → LocalTx → Except P1Err (Table × Branch)
   | t, [] => .ok (t, { items := [], lockKeys := [] })
   | t, (s, args) :: rest =>
@@ -86,7 +89,7 @@ def localPhase1 (sc : Schema) (cfg : Cfg) : Table → LocalTx → Except P1Err (
     | .ok (t1, item, keys) =>
       match localPhase1 sc cfg t1 rest with
       | .error e => .error e
-      | .ok (t2, b) => .ok (t2, { items := item :: b.items, lockKeys := keys ++ b.lockKeys })
+      | .ok (t2, b) => .ok (t2, { items := if item.nonEmpty then item :: b.items else b.items, lockKeys := keys ++ b.lockKeys })
 
 /-! Undo -/
 
